@@ -37,6 +37,22 @@ class Nodes:
 
     class Operator(astutils.Operator):
         def flatten(self, *arg, **kw):
+            if self.operator in (r'\A', r'\E'):
+                params, expr = self.operands
+                names = ', '.join(
+                    x.flatten(*arg, **kw)
+                    for x in params.operands)
+                e = expr.flatten(*arg, **kw)
+                return f'( {self.operator} {names}: {e} )'
+            if self.operator == 'LET':
+                defs, expr = self.operands
+                d = ' '.join(
+                    '{name} == {e}'.format(
+                        name=u.operands[0].value,
+                        e=u.operands[1].flatten(*arg, **kw))
+                    for u in defs)
+                e = expr.flatten(*arg, **kw)
+                return f'( LET {d} IN {e} )'
             return ''.join([
                 self.operator,
                 '(',
